@@ -134,6 +134,14 @@ fn compress(sh: &mut [u64; 8], st: &[u64; 2], sf: &[u64; 2], block: &[u8]) {
     }
 }
 
+// Verification hook (off unless built with `--cfg dryoc_verif`): lets a solver
+// harness call the compression function on an arbitrary chaining value.
+#[cfg(dryoc_verif)]
+#[doc(hidden)]
+pub(crate) fn verif_compress(sh: &mut [u64; 8], st: &[u64; 2], sf: &[u64; 2], block: &[u8]) {
+    compress(sh, st, sf, block)
+}
+
 fn increment_counter(t: &mut [u64; 2], inc: usize) {
     let mut c: u128 = ((t[1] as u128) << 64) | t[0] as u128;
     c += inc as u128;
